@@ -24,7 +24,10 @@ import plistlib
 
 from harness.core import vloop
 
-RULE = ("exhaustive: every pairing handler configuration (mrp, companion, companion with stored credentials, "
+RULE = ("PIN sweep: the compared secret at boundary values (0000, 0001, 9999) and random ones, right PIN (typed as int "
+        "and as 4-digit string) and wrong PINs / wrong pairing codes (neighbours, random, junk) for MRP, Companion, "
+        "AirPlay-HAP, RAOP-HAP and DMAP (DMAP: all request faults per PIN); "
+        "exhaustive: every pairing handler configuration (mrp, companion, companion with stored credentials, "
         "airplay-hap, airplay-legacy, raop-hap, raop-legacy, dmap) x previously stored credentials {none, old} x "
         "every await point (connect + every reply) x every fault kind/variant applicable at that point (error reply, "
         "wrong PIN, dropped reply, garbage frame/body, each required field missing, disconnect), plus the fault-free "
@@ -537,11 +540,20 @@ def _old_creds(name):
     return CLIENT_CREDENTIALS
 
 
-def _peer_factory(name, loop, state_box):
+def _peer_factory(name, loop, state_box, device_pin=None):
+    """`device_pin` (4-digit string) = the PIN the fake device displays; None = its default."""
     if name == "mrp":
+        from pyatv.protocols.mrp.server_auth import new_server_session
         from tests.fake_device.mrp import FakeMrpService, FakeMrpState
         state = state_box.setdefault("state", FakeMrpState())
-        return lambda: FakeMrpService(state, None, loop)
+
+        def make_mrp():
+            peer = FakeMrpService(state, None, loop)
+            if device_pin is not None:
+                peer.session, peer.salt = new_server_session(peer.keys, device_pin)
+            return peer
+
+        return make_mrp
     if name == "companion":
         from tests.fake_device.companion import FakeCompanionService, FakeCompanionState
         state = state_box.setdefault("state", FakeCompanionState())
@@ -564,11 +576,20 @@ def _peer_factory(name, loop, state_box):
                     return self.transport.write(act[1])
                 return super().send_to_client(act[1], act[2])
 
-        return lambda: Peer(state)
+        def make_companion():
+            from pyatv.protocols.companion.server_auth import new_server_session
+            peer = Peer(state)
+            if device_pin is not None:
+                peer.session, peer.salt = new_server_session(peer.keys, device_pin)
+            return peer
+
+        return make_companion
     from pyatv.support.http import BasicHttpServer
     from tests.fake_device.airplay import FakeAirPlayService, FakeAirPlayState
     state = state_box.setdefault("state", FakeAirPlayState())
     service = FakeAirPlayService(state, None, loop)
+    if device_pin is not None:
+        service.pin = device_pin
     return lambda: BasicHttpServer(service)
 
 
@@ -597,7 +618,7 @@ def _err_class(exc):
     return "other:" + type(exc).__name__
 
 
-async def _pair_client(name, prior, fault, world, loop):
+async def _pair_client(name, prior, fault, world, loop, pins=None):
     """begin(); pin(); finish() on the real handler obtained from pyatv.pair()."""
     import pyatv
     from pyatv.conf import AppleTV, ManualService
@@ -622,6 +643,8 @@ async def _pair_client(name, prior, fault, world, loop):
 
     good_pin, bad_pin = _pins(name)
     pin = bad_pin if (fault and fault[1] == "wrongpin") else good_pin
+    if pins is not None:
+        pin = pins[1]             # what the user types: int or 4-digit string
 
     obs = {"prior": old, "slot": slot}
     patches = []
@@ -671,19 +694,21 @@ async def _pair_client(name, prior, fault, world, loop):
     return obs
 
 
-def run_one(name, prior, fault, rng):
+def run_one(name, prior, fault, rng, pins=None):
     """Execute one case on the real code; returns the observation dict (never raises for
-    exceptions of the code under test)."""
+    exceptions of the code under test).  `pins` = (PIN of the device as 4-digit string, PIN
+    handed to handler.pin()) or None for the fake devices' defaults; for DMAP
+    (PIN handed to handler.pin(), pairing code the device sends: ("pin", n) | ("raw", text))."""
     if name == "dmap":
-        return run_dmap(prior, fault, rng)
+        return run_dmap(prior, fault, rng, pins)
     codec = CONFIGS[name][2]()
     world = World(codec, fault, rng)
     loop = PipeLoop(world)
     state_box = {}
 
     async def main():
-        loop.listeners[PORT] = _peer_factory(name, loop, state_box)
-        return await _pair_client(name, prior, fault, world, loop)
+        loop.listeners[PORT] = _peer_factory(name, loop, state_box, pins[0] if pins else None)
+        return await _pair_client(name, prior, fault, world, loop, pins)
 
     logging.disable(logging.CRITICAL)
     try:
@@ -749,7 +774,7 @@ def dmap_variants():
             ("garbage", "query"), ("dropped", "-"), ("disconnect", "-")]
 
 
-async def _dmap_device(loop, world, port, fault, rng):
+async def _dmap_device(loop, world, port, fault, rng, pins=None):
     """The device's side of the exchange: one GET /pair request (possibly faulty)."""
     kind, variant = (fault[1], fault[2]) if fault else (None, None)
     if kind == "dropped":
@@ -763,6 +788,8 @@ async def _dmap_device(loop, world, port, fault, rng):
     world.links.append(link)
     link.start()
     code = _dmap_code(DMAP_GUID, 4321 if kind == "wrongpin" else DMAP_PIN)
+    if pins is not None:
+        code = _dmap_code(DMAP_GUID, pins[1][1]) if pins[1][0] == "pin" else pins[1][1]
     query = {"pairingcode": code, "servicename": "c08device"}
     if kind == "missing":
         query.pop(variant)
@@ -790,7 +817,7 @@ async def _dmap_device(loop, world, port, fault, rng):
     return status
 
 
-def run_dmap(prior, fault, rng):
+def run_dmap(prior, fault, rng, pins=None):
     codec = type("DmapCodec", (), {"name": "dmap", "wire": True, "decode": staticmethod(lambda d: Reply("dmap", "http-response"))})()
     world = World(codec, None, rng)     # the pipe itself injects nothing; the device script does
     world.inverted = True
@@ -830,9 +857,9 @@ def run_dmap(prior, fault, rng):
             except Exception as ex:
                 exc, where = ex, "begin"
             if exc is None:
-                handler.pin(DMAP_PIN)
+                handler.pin(DMAP_PIN if pins is None else pins[0])
                 port = zeroconf.registered_services[0].port if zeroconf.registered_services else None
-                obs["device"] = await _dmap_device(loop, world, port, fault, rng)
+                obs["device"] = await _dmap_device(loop, world, port, fault, rng, pins)
                 obs["paired_mid"] = bool(handler.has_paired)
                 obs["svc_mid"] = service.credentials
                 try:
@@ -1015,13 +1042,15 @@ def case_rng(ctx, name, prior, fault, rep=0):
     return ctx.rng.fork(name, int(prior), *(fault or ("none",)), rep)
 
 
-def evaluate(ctx, name, prior, fault, base, rep=0):
+def evaluate(ctx, name, prior, fault, base, rep=0, pins=None):
     """One case on the real code + oracle; returns (case, obs)."""
-    obs = run_one(name, prior, fault, case_rng(ctx, name, prior, fault, rep))
+    obs = run_one(name, prior, fault, case_rng(ctx, name, prior, fault, rep), pins)
     idx, kind, variant = fault if fault else (None, None, None)
     label = label_of(name, base or obs, idx) if fault else "-"
     case = {"handler": name, "prior": bool(prior), "index": idx, "message": label, "kind": kind,
             "variant": variant, "rep": rep}
+    if pins is not None:
+        case["pins"] = [pins[0], list(pins[1]) if isinstance(pins[1], (tuple, list)) else pins[1]]
     summary = {k: obs.get(k) for k in ("err", "exc_name", "exc_text", "where", "paired", "svc", "prior", "events")}
     summary["settings"] = (obs.get("settings") or {}).get(obs.get("slot"))
     for tag, text in oracle(name, obs, fault):
@@ -1044,7 +1073,7 @@ def run(ctx, only=None):
             base, faults = fault_space(name, prior, ctx.rng.fork(name, int(prior)))
             if only is not None:
                 fault = None if only["index"] is None else (only["index"], only["kind"], only["variant"])
-                evaluate(ctx, name, prior, fault, base, only.get("rep", 0))
+                evaluate(ctx, name, prior, fault, base, only.get("rep", 0), only.get("pins"))
                 continue
             # --- fault-free run: trace, applicability table, success clause
             case, obs = evaluate(ctx, name, prior, None, base)
@@ -1077,6 +1106,7 @@ def run(ctx, only=None):
                     pending.append(("run", case, canon_obs(obs)))
     if only is not None:
         return
+    pin_sweep(ctx, lines, pending)
     # --- error_handler itself: what class reaches the caller for each kind of inner failure
     for kind, cls in probe_error_handler():
         lines.append("errclass handler " + kind)
@@ -1093,6 +1123,80 @@ def run(ctx, only=None):
         ctx.validated()
         if model != impl:
             ctx.disagree(dict(case, line=line), impl, ans, where=what)
+
+
+PIN_HANDLERS = ["mrp", "companion", "airplay-hap", "raop-hap"]   # legacy AirPlay: recorded transcript, one PIN
+
+
+def pin_values(ctx, name):
+    """boundary values of the compared secret + random ones"""
+    rng = ctx.rng.fork("pins", name)
+    vals = [0, 1, 9999, rng.randrange(2, 9999)]
+    if ctx.thorough:
+        vals += [10, 1000, rng.randrange(2, 9999), rng.randrange(2, 9999)]
+    out = []
+    for v in vals:
+        if v not in out:
+            out.append(v)
+    return out
+
+
+def wrong_pins(ctx, name, pin):
+    rng = ctx.rng.fork("wrong", name, pin)
+    cand = [(pin + 1) % 10000, (pin - 1) % 10000, rng.randrange(0, 10000)]
+    if ctx.thorough:
+        cand += [(pin * 10) % 10000, (pin + 1000) % 10000, 0, 9999, rng.randrange(0, 10000)]
+    out = []
+    for w in cand:
+        if w != pin and w not in out:
+            out.append(w)
+    return out
+
+
+def pin_sweep(ctx, lines, pending):
+    """Every secret the handlers compare, at its boundary values: the PIN (0 = "0000", 1 = "0001",
+    9999, random): right PIN -> success; every wrong PIN / wrong pairing code -> the wrong-PIN
+    fault.  HAP handlers: the fake device displays the PIN, the user types it as int and as
+    4-digit string.  DMAP: the PIN is given to pin(), the device sends the pairing code."""
+    for name in PIN_HANDLERS:
+        for prior in ((False, True) if ctx.thorough else (True,)):
+            script = script_name(name, prior)
+            base = run_one(name, prior, None, ctx.rng.fork(name, int(prior), "recon"))
+            proof = next((i for i, r in enumerate(base.get("replies", []), 1) if PROOF_REPLY.get(r.label)), None)
+            if proof is None:
+                ctx.disagree({"handler": name}, "no proof reply in the real exchange", "proof index expected", where="pins")
+                continue
+            for pin in pin_values(ctx, name):
+                dev = "%04d" % pin
+                plans = [(None, (dev, pin), pin), (None, (dev, dev), pin)]
+                wrongs = wrong_pins(ctx, name, pin)
+                for j, w in enumerate(wrongs):
+                    typed = ("%04d" % w) if j == len(wrongs) - 1 else w
+                    plans.append(((proof, "wrongpin", "device=%s typed=%r" % (dev, typed)), (dev, typed), w))
+                for fault, pins, typed_val in plans:
+                    case, obs = evaluate(ctx, name, prior, fault, base, 0, pins)
+                    ctx.case(["pin", name, prior, list(pins), bool(fault)], True,
+                             sample={"case": case, "raised": obs.get("exc_name"), "paired": obs.get("paired")})
+                    ctx.note("pin:" + ("boundary" if pin in (0, 1, 9999) else "other") + (":wrong" if fault else ":right"))
+                    lines.append("runpin %s %d %d" % (script, pin, typed_val))
+                    pending.append(("run", case, canon_obs(obs)))
+    for prior in (False, True):
+        for pin in pin_values(ctx, "dmap"):
+            plans = [(None, (pin, ("pin", pin)), "runpin dmap %d %d" % (pin, pin))]
+            for w in wrong_pins(ctx, "dmap", pin):
+                plans.append(((0, "wrongpin", "pin=%d code-of=%d" % (pin, w)), (pin, ("pin", w)), "runpin dmap %d %d" % (pin, w)))
+            for raw in ("WRONG", "", "0" * 32):
+                plans.append(((0, "wrongpin", "pin=%d code=%r" % (pin, raw)), (pin, ("raw", raw)), "run dmap 0 wrongpin"))
+            for kind, variant in dmap_variants():
+                if kind != "wrongpin":
+                    plans.append(((0, kind, variant), (pin, ("pin", pin)), "run dmap 0 " + kind))
+            for fault, pins, line in plans:
+                case, obs = evaluate(ctx, "dmap", prior, fault, None, 0, pins)
+                ctx.case(["pin", "dmap", prior, pin, list(fault or ())], True,
+                         sample={"case": case, "paired": obs.get("paired"), "device_got": obs.get("device")})
+                ctx.note("pin:" + ("boundary" if pin in (0, 1, 9999) else "other") + (":" + fault[1] if fault else ":right"))
+                lines.append(line)
+                pending.append(("run", case, canon_obs(obs)))
 
 
 def replay(ctx, failure):
